@@ -329,6 +329,7 @@ fn on_yield<F: Flav>(st: &RefCell<St<F>>, case: &Case, e: &F::Edge, owner_is_dst
 }
 
 pub fn run_case<F: Flav>(case: &Case, rep: &mut Report) -> Vec<String> {
+    watchdog::beat();
     let mut w = World::<F>::new(case.n);
     let mut m = MModel {
         out: vec![vec![]; case.n],
